@@ -1,0 +1,39 @@
+//go:build verif
+
+package srv
+
+import (
+	"context"
+	"sync/atomic"
+)
+
+// VerifHookFunc is the signature of the verification hook. It only exists in builds tagged
+// "verif" and is used by external verification harnesses to observe and gate the atomic steps
+// of the Service lifecycle (the yield points in Start/Wait and in the service goroutines).
+type VerifHookFunc func(ctx context.Context, point string, args ...any)
+
+var verifHook atomic.Pointer[VerifHookFunc]
+
+// VerifSetHook installs (or, with nil, removes) the verification hook.
+func VerifSetHook(fn VerifHookFunc) {
+	if fn == nil {
+		verifHook.Store(nil)
+		return
+	}
+	verifHook.Store(&fn)
+}
+
+func verifAt(ctx context.Context, point string, args ...any) {
+	if h := verifHook.Load(); h != nil {
+		(*h)(ctx, point, args...)
+	}
+}
+
+// verifYield is a yield point of the service s: the hook receives the service itself as its
+// first argument, followed by the synchronization object (channel, context, wait group) the
+// caller is about to block on, if any.
+func (s *Service) verifYield(point string, args ...any) {
+	if h := verifHook.Load(); h != nil {
+		(*h)(context.Background(), point, append([]any{s}, args...)...)
+	}
+}
